@@ -18,11 +18,16 @@ impl Checker for C05 {
         let mut v = o::o_result("C05", ops, ex);
         // only the space-related part of the result oracle belongs to this property
         v.retain(|(sig, _)| sig.contains("NotEnoughSpace") || sig.contains("partial-"));
-        v.extend(o::o_free_space("C05", ops, ex));
+        // clean FAT32 volumes whose stored (advisory) free count is wrong: what stats() reports there is the stored
+        // value until the library recounts, so only the out-of-space clause is judged on them
+        let stale_count = cfg.name.contains("-fsi-count");
+        if !stale_count {
+            v.extend(o::o_free_space("C05", ops, ex));
+        }
         // a transient storage fault while the volume is being unmounted (explicitly, or implicitly by dropping it): the next session must still report
         // the number of free entries of the FAT (the library may have failed to store the count, but then it must
         // not trust it)
-        if matches!(ops.last(), Some(Op::Remount | Op::DropRemount)) && ex.panic.is_none() && v.is_empty() && ex.calls_last <= 3000 {
+        if !stale_count && matches!(ops.last(), Some(Op::Remount | Op::DropRemount)) && ex.panic.is_none() && v.is_empty() && ex.calls_last <= 3000 {
             for k in 1..=ex.calls_last {
                 let plan = harness::sess::Plan { fault: Some((k, 0x00F5_0000 + k as u32)), ..Default::default() };
                 let fx = sess::run(cfg, ops, &plan);
@@ -158,6 +163,16 @@ pub fn specs(tier: &str) -> Vec<ExpSpec> {
                 v.push(ExpSpec::new(c, alphabet(512), if th { 5 } else { 3 }));
             }
         }
+    }
+    // clean FAT32 volumes (cleanly unmounted by someone else) whose stored free count is wrong: too low (0, 1) or too
+    // high. The count is advisory: out-of-space may be reported only when the table has no free entry
+    for (tag, cnt) in [("fsi-count0", 0u32), ("fsi-count1", 1), ("fsi-count-high", 60_000)] {
+        let mut spec = vol::tiny_spec(FatType::Fat32);
+        spec.free = Some(7);
+        spec.name = format!("t32-f7-{tag}");
+        let (mut img, cands) = vol::build(&spec).expect("fs-info volume");
+        vol::set_fsinfo(&mut img, Some(cnt), None);
+        v.push(ExpSpec::new(vol::cfg_from(&spec.name, img, cands), alphabet(512), if th { 5 } else { 3 }));
     }
     // volumes made by the independent builder (a foreign formatter): FAT padding entries are zero, so a scan that
     // runs one entry too far finds a "free" cluster behind the last one; four free clusters, the last one included
